@@ -69,7 +69,8 @@ class _TabulationCutoff(object):
     dr = _get_or_none(self._dr_attr, cp_tabulation_section, float)
     cutoff = _get_or_none(self._cutoff_attr, cp_tabulation_section, float)
 
-    if nr and dr and cutoff:
+    # A value of 0 is a value that was given (and is refused below), not an absent one.
+    if not nr is None and not dr is None and not cutoff is None:
       raise ConfigParserException("'{cutoff}', '{nr}' and '{dr}' cannot all be spcified in [Tabulation] section of potential definition.".format(**self._template_dict))
     elif nr and dr:
       # Set cutoff
